@@ -180,6 +180,7 @@ static std::string dump_small(small_free_memory_list& l)
     }
     if (first) s += "-";
     { char b[48]; std::snprintf(b, sizeof b, " dc=%ld", l.dealloc_chunk_ == &l.base_ ? -999999L : long(reinterpret_cast<char*>(l.dealloc_chunk_) - g.mem)); s += b; }
+    { char b[48]; std::snprintf(b, sizeof b, " ac=%ld", l.alloc_chunk_ == &l.base_ ? -999999L : long(reinterpret_cast<char*>(l.alloc_chunk_) - g.mem)); s += b; }
     return s;
 }
 
